@@ -15,44 +15,29 @@ Import ListNotations.
 Open Scope N_scope.
 
 (* ---- format options.  G = number of code points of the first extended grapheme cluster
-   (unicode-segmentation), a parameter.
+   (unicode-segmentation), a parameter.  render_sfo iterates over the field list and the
+   representation characters REGENERATED from render_format_options (koto 06483c8 made it write
+   the representation; before that this statement was refuted by s = "x").
 
-   The full statement:
-     format_spec_roundtrip G := forall s o, parse_sfo G s = FOk o -> parse_sfo G (render_sfo o) = FOk o
-   is FALSE for the renderer generated from today's render_format_options: *)
-Theorem format_spec_roundtrip_refuted :
-  forall G : list N -> nat,
-    exists (s : list N) (o : sfo), parse_sfo G s = FOk o /\ parse_sfo G (render_sfo o) <> FOk o.
-Proof. exact FmtSpecProofs.format_spec_roundtrip_refuted. Qed.
-Print Assumptions format_spec_roundtrip_refuted.
-
-(* the reason, stated on the generated field list: the representation is never written *)
-Theorem render_ignores_representation : forall o : sfo, render_sfo o = render_sfo (set_repr o None).
-Proof. exact FmtSpecProofs.render_sfo_spec_fields. Qed.
-Print Assumptions render_ignores_representation.
-
-(* outside the class drops_repr (= the options carry a representation) the round trip holds for
-   EVERY option string; the only assumption is locality of grapheme segmentation (UAX#29 rules look
-   one character past a boundary) *)
-Theorem format_spec_roundtrip_partial :
+   For EVERY option string: re-parsing what the formatter writes gives the options the parser had.
+   The only assumption is locality of grapheme segmentation (UAX#29 rules look one character past
+   a boundary). *)
+Theorem format_spec_roundtrip :
   forall G : list N -> nat,
     (forall (g : list N) (a : N) (t t' : list N),
        g <> [] -> is_align a = true -> G (g ++ a :: t) = length g -> G (g ++ a :: t') = length g) ->
     forall (s : list N) (o : sfo),
-      parse_sfo G s = FOk o -> drops_repr o = false -> parse_sfo G (render_sfo o) = FOk o.
-Proof. exact FmtSpecProofs.format_spec_roundtrip_partial. Qed.
-Print Assumptions format_spec_roundtrip_partial.
+      parse_sfo G s = FOk o -> parse_sfo G (render_sfo o) = FOk o.
+Proof. exact FmtSpecProofs.format_spec_roundtrip. Qed.
+Print Assumptions format_spec_roundtrip.
 
-(* and a renderer that also writes the representation (field list + FRepr) would satisfy the full
-   statement: the fix is one field *)
-Theorem format_spec_roundtrip_fixed :
-  forall G : list N -> nat,
-    (forall (g : list N) (a : N) (t t' : list N),
-       g <> [] -> is_align a = true -> G (g ++ a :: t) = length g -> G (g ++ a :: t') = length g) ->
-    forall (s : list N) (o : sfo),
-      parse_sfo G s = FOk o -> parse_sfo G (render_fields full_fields o) = FOk o.
-Proof. exact FmtSpecProofs.format_spec_roundtrip_fixed. Qed.
-Print Assumptions format_spec_roundtrip_fixed.
+(* the representation is part of what is written (the repaired defect was
+   render_sfo o = render_sfo (set_repr o None)) *)
+Theorem render_writes_representation :
+  render_sfo (mksfo ADefault None None None (Some RHexLower))
+  <> render_sfo (mksfo ADefault None None None None).
+Proof. exact FmtSpecProofs.render_sfo_writes_representation. Qed.
+Print Assumptions render_writes_representation.
 
 (* ---- source slices.  width = the unicode-width oracle, a parameter *)
 Theorem slice_is_token_text :
@@ -85,6 +70,10 @@ Print Assumptions slice_panics.
 Example nv_parse_08 :
   parse_sfo (fun _ => 1%nat) [48; 56] = FOk (mksfo ADefault (Some 8) None (Some [48]) None).
 Proof. vm_compute; reflexivity. Qed.
+Example nv_parse_render_x :
+  render_sfo (mksfo ADefault None None None (Some RHexLower)) = [120]
+  /\ parse_sfo (fun _ => 1%nat) [120] = FOk (mksfo ADefault None None None (Some RHexLower)).
+Proof. vm_compute; split; reflexivity. Qed.
 Example nv_render_roundtrip :
   parse_sfo (fun _ => 1%nat) (render_sfo (mksfo ACenter (Some 9) (Some 2) (Some [95]) None))
   = FOk (mksfo ACenter (Some 9) (Some 2) (Some [95]) None).
